@@ -157,6 +157,17 @@ def check_ubi(sh, mods, ubi, cell, U0, eps, case):
     if not close(tb, Bo): return bad("tensor_map.unitcell_to_b", {"got": tb, "expected": Bo})
     tu = tm.ubi_and_b_to_u(ubi, tb)
     if not close(tu, U): return bad("tensor_map.ubi_and_b_to_u", {"got": tu, "expected": U})
+    # the same kernels writing into a caller-supplied output array that holds old content (NaN, then 7.5): every element is defined by
+    # the kernel, nothing of the old content survives
+    for fill in (np.nan, 7.5):
+        for nm, fn, args, shp, want_, tol_ in (("ubi_to_mt", tm.ubi_to_mt, (ubi,), (3, 3), mt, 1e-12), ("fast_invert", tm.fast_invert, (ubi,), (3, 3), UB, 1e-9),
+                                               ("mt_to_unitcell", tm.mt_to_unitcell, (mt, np.arange(6)), (6,), ucell, 1e-10),
+                                               ("unitcell_to_b", tm.unitcell_to_b, (ucell, np.eye(3)), (3, 3), Bo, 1e-9),
+                                               ("ubi_and_b_to_u", tm.ubi_and_b_to_u, (ubi, tb), (3, 3), U, 1e-9)):
+            out_ = np.full(shp, fill)
+            fn(*args, out_)
+            if not close(out_, want_, tol_):
+                return bad("tensor_map.%s:output-array-keeps-old-content" % nm, {"got": out_, "expected": want_, "old_content": repr(fill)})
     # point by point
     if not close(pbp.ubi_to_unitcell(ubi), ucell, 1e-10): return bad("point_by_point.ubi_to_unitcell")
     pu = pbp.ubi_and_ucell_to_u(ubi, ucell)
